@@ -1,10 +1,11 @@
 /* bloc_exc.h -- the exception classes BLOC code throws or catches, and their hierarchy.
- * The hierarchy table is compared with the DWARF base-class info on every run (tools/extract.py). */
+ * The hierarchy is written by hand from blocc/exception.h and the C++ standard ([std.exceptions], [re.badexp]); it is an assumption
+ * listed in the evidence, not something a run re-derives. */
 #ifndef BLOC_EXC_H
 #define BLOC_EXC_H
 char _ZTIN4bloc12RuntimeErrorE, _ZTIN4bloc10ParseErrorE, _ZTIN4bloc5ErrorE;
 char _ZTISt9exception, _ZTISt12out_of_range, _ZTISt16invalid_argument, _ZTISt11logic_error, _ZTISt9bad_alloc,
-     _ZTISt12length_error, _ZTISt8bad_cast;
+     _ZTISt12length_error, _ZTISt8bad_cast, _ZTISt13runtime_error, _ZTISt11regex_error;
 #define G2C_EXC_RuntimeError (&_ZTIN4bloc12RuntimeErrorE)
 #define G2C_EXC_ParseError   (&_ZTIN4bloc10ParseErrorE)
 #define G2C_EXC_Error        (&_ZTIN4bloc5ErrorE)
@@ -15,6 +16,8 @@ char _ZTISt9exception, _ZTISt12out_of_range, _ZTISt16invalid_argument, _ZTISt11l
 #define G2C_EXC_bad_alloc    (&_ZTISt9bad_alloc)
 #define G2C_EXC_length_error (&_ZTISt12length_error)
 #define G2C_EXC_bad_cast     (&_ZTISt8bad_cast)
+#define G2C_EXC_runtime_error (&_ZTISt13runtime_error)
+#define G2C_EXC_regex_error  (&_ZTISt11regex_error)
 
 /* is the dynamic type `t` the class `c` or derived from it */
 static _Bool __g2c_exc_isa(const void *t, const void *c)
@@ -23,9 +26,11 @@ static _Bool __g2c_exc_isa(const void *t, const void *c)
   if (c == G2C_EXC_exception)
     return t == G2C_EXC_RuntimeError || t == G2C_EXC_ParseError || t == G2C_EXC_Error || t == G2C_EXC_out_of_range ||
            t == G2C_EXC_invalid_argument || t == G2C_EXC_logic_error || t == G2C_EXC_bad_alloc || t == G2C_EXC_length_error ||
-           t == G2C_EXC_bad_cast;
+           t == G2C_EXC_bad_cast || t == G2C_EXC_runtime_error || t == G2C_EXC_regex_error;
   if (c == G2C_EXC_Error)
     return t == G2C_EXC_RuntimeError || t == G2C_EXC_ParseError;
+  if (c == G2C_EXC_runtime_error)
+    return t == G2C_EXC_regex_error;
   if (c == G2C_EXC_logic_error)
     return t == G2C_EXC_out_of_range || t == G2C_EXC_invalid_argument || t == G2C_EXC_length_error;
   return 0;
